@@ -619,12 +619,61 @@ def validate_info(rng, n, res):
         uc = [[su, iu]] if su is not None and iu is not None and safe(fm.data.tools.compatible_units, c07.unit_obj(su), c07.unit_obj(iu)) else []
         reqs.append({"fn": "Info_accepts", "args": [tg, mcode(this), su, ds, ig, mcode(inc), iu, gc, uc, tab]})
         reals.append(real)
+    # Output.get_info on real outputs: own info and request drawn from the catalogue, open fields on either side
+    if common.TRANSLATION_STATUS.get("Output_get_info", {}).get("translated"):
+        KEYS = {"units": 0, "foo": 1, "bar": 2}
+        for _ in range(n):
+            og, ig = rng.choice(gopts), rng.choice(gopts)
+            om, im = rng.choice(["flex", "none"] + [m for m in c07.MASKS if fits(m, og) and og is not None]), rng.choice(mopts)
+            if not fits(im, ig):
+                continue
+            ou, iu = rng.choice([None] + uids), rng.choice([None] + uids)
+            ot, it = rng.choice([None, 0, 1]), rng.choice([None, 0, 2])
+            static = rng.random() < 0.2
+            oextra = {k: rng.choice([None, 1, 2]) for k in ("foo", "bar") if rng.random() < 0.5}
+            iextra = {k: rng.choice([None, 1, 3]) for k in ("foo", "bar") if rng.random() < 0.6}
+            try:
+                tm = lambda x: None if x is None else EPOCH + x * dt.timedelta(days=1)  # noqa
+                oinfo = fm.Info(time=tm(ot), grid=gobj(og), mask=mobj(om), units=None if ou is None else c07.unit_obj(ou), **oextra)
+                iinfo = fm.Info(time=tm(it), grid=gobj(ig), mask=mobj(im), units=None if iu is None else c07.unit_obj(iu), **iextra)
+                iinfo.mask = mobj(im)
+                out = fm.Output(name="o", static=static, info=oinfo)
+            except Exception:  # noqa
+                continue
+            if (oinfo.units is None) != (ou is None) or (iinfo.units is None) != (iu is None):
+                continue
+            uid = lambda u: None if u is None else next((k for k in uids if c07.unit_obj(k) == u), -1)  # noqa
+            enc_meta = lambda info: [[KEYS[k], (uid(v) if k == "units" else v)] for k, v in info.meta.items()]  # noqa
+            ometa, imeta = enc_meta(oinfo), enc_meta(iinfo)
+            tab = me_table([(a, b, g1, g2) for a in (om, im) for b in (om, im) for g1 in (og, ig) for g2 in (og, ig)])
+            gc = [[og, ig]] if og is not None and safe(gobj(og).compatible_with, gobj(ig)) else []
+            uc = [[ou, iu]] if ou is not None and iu is not None and safe(fm.data.tools.compatible_units, c07.unit_obj(ou), c07.unit_obj(iu)) else []
+            us_ = lambda x: None if x is None else x * 86_400_000_000  # noqa
+            try:
+                r = out.get_info(iinfo)
+                gid = next((k for k in range(ng) if r.grid is c07.GRIDS[k][1]), -1)
+                real = {"ok": [out._out_infos_exchanged, gid, enc_meta(r), None if r.time is None else us_of(r.time)]}
+            except Exception as e:  # noqa
+                real = {"err": err_class(e)}
+            reqs.append({"fn": "Output_get_info", "args": [True, og, us_(ot), mcode(om), ou, ometa, static, 0, ig, us_(it), mcode(im), iu, imeta, gc, uc, tab]})
+            reals.append(real)
     if not reqs:
         return
-    stats = {"masks_compatible": 0, "Info_accepts": 0, "accepted": 0, "mismatch": 0}
+    stats = {"masks_compatible": 0, "Info_accepts": 0, "Output_get_info": 0, "accepted": 0, "mismatch": 0}
     for rq, real, lv in zip(reqs, reals, _trdriver(reqs)):
         stats[rq["fn"]] += 1
         stats["accepted"] += bool(real)
+        if isinstance(real, dict):
+            if "err" in real or "err" in lv:
+                agree = real.get("err") == lv.get("err")
+            else:
+                ex, (g, (md, t)) = lv["ok"][0], (lv["ok"][1][0], (lv["ok"][1][1][0], lv["ok"][1][1][1]))
+                agree = [ex, g, [list(p) for p in md], t] == real["ok"]
+                stats["accepted"] += 1
+            if not agree:
+                stats["mismatch"] += 1
+                res.diverge("translation/" + rq["fn"], {"fn": rq["fn"], "args": rq["args"]}, real, lv)
+            continue
         if lv.get("ok") is not real:
             stats["mismatch"] += 1
             res.diverge("translation/" + rq["fn"], {"fn": rq["fn"], "args": rq["args"]}, real, lv)
